@@ -489,6 +489,11 @@ impl Check {
         if f.key.starts_with("HARNESS") {
             infra(&format!("{}: {} {}", campaign, f.key, f.msg));
         }
+        // one report per root-cause key
+        if self.violations.iter().any(|(k, _, _)| *k == f.key) {
+            *self.labels.entry(format!("more_violations:{}", f.key)).or_insert(0) += 1;
+            return;
+        }
         let dir = verif_root().join("replays").join(&self.property);
         let _ = std::fs::create_dir_all(&dir);
         let h = hash_choices(choices) ^ fnv(campaign.as_bytes());
